@@ -10,7 +10,7 @@
 (* each a sequence of [k, o, n] (key, old, new; "-" = absent).             *)
 (*                                                                         *)
 (* Judged with the operators of Subshell.tla:                              *)
-(*   entry : entry  = ForkImage(before, role)      on MK; no other key     *)
+(*   entry : entry  = ForkImageK(before, kind, role) on MK; no other key   *)
 (*           differs from the parent's             -> finding "entry"      *)
 (*   leak  : after  = ApplySeq(before, post)       on MK; no other key     *)
 (*           changes except the own steps' extra footprint                 *)
@@ -92,7 +92,7 @@ Verdict(r) ==
                   = NestedFiles(sc.pre) \cup NestedFiles(sc.post) \cup UNION {NestedFiles(sc.ch[j]) : j \in 1..nch}
                THEN {} ELSE {<<"end", "files", "as the redirection-only commands prescribe", "different">>}
       EntryBad(j) ==
-         LET Me == ForkImage(Ob, roles[j])
+         LET Me == ForkImageK(Ob, kind_, roles[j])     \* (a negated pipeline is itself an errexit-exempt context)
              V(k) == Ventry(j, k)
          IN  {<<"entry", k, Me[k], V(k)>> : k \in BadKeys(Me, Ob, V, r.ch[j].d_entry, RefBefore)}
              \cup {<<"entry", k, Vbefore(k), V(k)>> : k \in DKeys(r.ch[j].d_entry) \ MK}
